@@ -144,8 +144,7 @@ def check_quantizer_boundaries(ctx, F):
                 ctx.unresolved('R10', role, b.defpath, txt, key=kk)
         total += n_here
     ctx.extra['quantizer_cumulatives'] = total
-    if total < 6:
-        ctx.bad('R10', 'floor: quantizer cumulative computations', LQD, 'only %d recognised (encoder 2, decoder search, iterator expected)' % total, key='R10/floor/cumulatives')
+    ctx.floor('R10', 'floor: quantizer cumulative computations', LQD, total, 6, 'only %d recognised (encoder 2, decoder search, iterator expected)' % total, key='R10/floor/cumulatives')
 
 
 rules.callee = __import__('vlib.facts', fromlist=['callee']).callee
@@ -186,8 +185,7 @@ def check_views(ctx, F):
         else:
             ctx.ok('R4', role, b.defpath, 'every field copied from the same-named field of self', key=key)
     ctx.extra['views'] = n
-    if n < 8:
-        ctx.bad('R4', 'floor: model views', 'stream::model', 'only %d views/projections found (9 on the reference tree)' % n, key='R4/floor/views')
+    ctx.floor('R4', 'floor: model views', 'stream::model', n, 8, 'only %d views/projections found (9 on the reference tree)' % n, key='R4/floor/views')
 
 
 def check_forwarding(ctx, F, traits=None, floor=5, what='stream::model'):
@@ -305,12 +303,21 @@ def _is_sum_of_table(F, v):
     return False
 
 
-def role_float(t, F=None):
+def role_float(t, F=None, opt=None):
     """probabilities slice / pmf field -> ('PROBS',); normalization arg -> kept as is (same position);
     `normalization.unwrap_or(sum)` and `normalization.unwrap_or_else(|| sum)` -> the same NORM atom."""
     def pre(n):
         if n and n[0] == 'call' and isinstance(n[1], str) and n[1].endswith(('Option::<T>::unwrap_or', 'Option::<T>::unwrap_or_else')) and len(n[2]) == 2 and _is_sum_of_table(F, n[2][1]):
             return ('NORM', n[2][0])
+        # the same choice written as `match normalization { Some(n) => n, None => sum }`: `opt` = (option argument, arm of this path)
+        if opt is not None:
+            arg, arm = opt
+            if arm == 'Some' and n and n[0] == 'payload' and n[1] == arg and n[2] == 'Some':
+                return ('NORM', arg)
+            if arm == 'Some' and n and n[0] == 'in' and arg[0] == 'arg' and n[1][0] == arg[1] and len(n[1]) == 3 and n[1][1] == ('dc', 'Some'):
+                return ('NORM', arg)
+            if arm == 'None' and _is_sum_of_table(F, n):
+                return ('NORM', arg)
         return None
     t = effects.rebuild(effects.strip_uid(t), pre)
 
@@ -333,18 +340,27 @@ def ctor_shape(F, b):
     guards = set()
     scale = set()
     for r in paths or []:
+        # an explicit match on the optional normalization argument splits the paths; fold both arms back into one atom
+        opt = None
+        for t, v, _ in r.preds:
+            if t[0] == 'discr' and (t[1][0] == 'arg' or (t[1][0] == 'in' and len(t[1][1]) == 1)):
+                arm = sym.discr_variant(t, v)
+                if arm in ('Some', 'None'):
+                    opt = (('arg', t[1][1] if t[1][0] == 'arg' else t[1][1][0]), arm)
         if r.end == 'return' and rules.ret_shape(r.ret)[0] == 'Err':
             for t, v, _ in r.preds:
-                guards.add(repr((role_float(t, F), v)))
+                if opt is not None and t[0] == 'discr' and (t[1] == opt[0] or t[1] == ('in', (opt[0][1],))):
+                    continue
+                guards.add(repr((role_float(t, F, opt), v)))
         for e in r.events:
             if e['kind'] == 'call' and e['callee'] == 'core::ops::Div::div':
-                scale.add(repr(role_float(e['result'], F)))
+                scale.add(repr(role_float(e['result'], F, opt)))
             if e['kind'] == 'call' and e['callee'] == 'core::ops::Mul::mul' and sym.contains(e['result'], lambda y: isinstance(y, tuple) and y and y[0] == 'call' and y[1].endswith('recip')):
-                scale.add(repr(role_float(e['result'], F)))
+                scale.add(repr(role_float(e['result'], F, opt)))
         for x in ([r.ret] if r.ret is not None else []):
             for y in sym.subterms(x):
                 if isinstance(y, tuple) and y and y[0] == 'bin' and y[1] in ('Div',) and sym.contains(y, lambda z: isinstance(z, tuple) and z and z[0] == 'call' and z[1].endswith('wrapping_pow2')):
-                    scale.add(repr(role_float(y, F)))
+                    scale.add(repr(role_float(y, F, opt)))
     return guards, scale
 
 
